@@ -697,6 +697,14 @@ func (x *Exec) evalCall(env *SpecEnv, c *ast.CallExpr) specVal {
 				return env.fail("bad type %s", exprString(c.Args[1]))
 			}
 			return specVal{term: fmt.Sprintf("(and ((_ is ibox) %s) (= (itag %s) %d))", v.term, v.term, vc.typeTag(ty)), typ: tBool}
+		case "G_errIs":
+			// $errIs(err, target): errors.Is as the model knows it (reflexive; preserved by %w wrapping)
+			if len(c.Args) != 2 {
+				return env.fail("$errIs needs (err, target)")
+			}
+			a := x.evalSpec(env, c.Args[0])
+			b := x.evalSpec(env, c.Args[1])
+			return specVal{term: fmt.Sprintf("(errors_is %s %s)", a.term, b.term), typ: tBool}
 		case "G_trigger":
 			// $trigger(body, t1, t2, ...): body, to be instantiated only where all of t1, t2, ... occur
 			// (an SMT multi-pattern for the enclosing forall)
